@@ -1075,6 +1075,19 @@ func buildCallScope(root *ssa.Function) *callScope {
 			add(a)
 		}
 		allInstrs(fn, func(in ssa.Instruction) {
+			// a method value (c.clearLocked) handed on as a function: the method is part of the scope
+			if mc, ok := in.(*ssa.MakeClosure); ok {
+				if w, ok := mc.Fn.(*ssa.Function); ok && w.Parent() == nil && strings.HasSuffix(w.Name(), "$bound") {
+					allInstrs(w, func(in2 ssa.Instruction) {
+						if ci, ok := in2.(ssa.CallInstruction); ok {
+							if t := origin(staticCallee(ci.Common())); t != nil && t.Blocks != nil && t.Pkg == pkg {
+								add(t)
+							}
+						}
+					})
+				}
+				return
+			}
 			call, ok := in.(*ssa.Call)
 			if !ok {
 				return
